@@ -19,9 +19,10 @@ import Driver.HJsonVal
 import Driver.HStdlib
 import Driver.HWF
 import Driver.HHeap
+import Driver.HCovers
 open CtyModel
 
-def handlers : List Handler := [handleTy, handleVal, handleNum, handleOps, handleFunc, handleSet, handleRefine, handleGocty, handleStd, handleStdNum, handleMarks, handleMsgpack, handleJsonVal, handleStdlib, handleWF, handleHeap]
+def handlers : List Handler := [handleTy, handleVal, handleNum, handleOps, handleFunc, handleSet, handleRefine, handleGocty, handleStd, handleStdNum, handleMarks, handleMsgpack, handleJsonVal, handleStdlib, handleWF, handleHeap, handleCovers]
 
 def handle (op : String) (args : List Sexp) : String :=
   match handlers.findSome? (fun h => h op args) with
